@@ -101,7 +101,8 @@ def contracts():
     c["new_nonce"] = FnSpec(ret="r", ghost=True, sig="    requires" + NET_PRE + "    ensures" + NET_POST + """
         final(w).net.posts == old(w).net.posts, final(w).net.waited == old(w).net.waited,
 """)
-    c["post"] = FnSpec(ret="r", ghost=True, sig="    requires" + NET_PRE + DB_PRE + "    ensures" + NET_POST + """
+    # (url_given__: the URL text the caller gave - a local of the same name may shadow the parameter further down)
+    c["post"] = FnSpec(ret="r", ghost=True, body_start="let ghost url_given__: &str = url;", sig="    requires" + NET_PRE + DB_PRE + "    ensures" + NET_POST + """
         final(w).net.posts <= old(w).net.posts + 10, //@C08.at_most_10_transmissions,C07.every_request_is_given_up_after_a_bounded_number_of_transmissions
         final(w).net.waited <= old(w).net.waited + POST_WAIT_NS(), //@C07.the_waits_between_transmissions_are_bounded
         r is Ok ==> final(w).net.last_success && final(w).net.posts > old(w).net.posts, //@C08.ok_is_2xx
@@ -119,8 +120,8 @@ def contracts():
         proof {
             // history variable: the body about to be sent was built, in this round, from exactly (stored nonce, this url)
             let n_view = match nonce_view(endpoint.nonce) { Some(s) => s, None => Seq::<char>::empty() };
-            assert(exists|n: &str| n@ == n_view && #[trigger] data_builder.ensures((n, url), Ok(body))); //@C04.body_built_from_stored_nonce_and_url,C08.retransmission_rebuilt_with_newest_nonce
-            w.net.built = Some((n_view, url@, body@));
+            assert(exists|n: &str| n@ == n_view && #[trigger] data_builder.ensures((n, url_given__), Ok(body))); //@C04.body_built_from_stored_nonce_and_url,C08.retransmission_rebuilt_with_newest_nonce
+            w.net.built = Some((n_view, url_given__@, body@));
         }"""),
           ("exits", None, 1, """
         proof {
@@ -128,7 +129,7 @@ def contracts():
             // or it was not a recoverable error (the only other ways out are the exhausted retry budget and failed steps, which `?` reports)
             assert(w.net.last_success || !recoverable_body(w.net.last_body) || w.net.posts == old(w).net.posts); //@C08.a_recoverable_error_is_sent_again_not_given_up
         }"""),
-          ("before_stmt", "acme_err.is_recoverable", 1, """
+          ("before_stmt_re", r"\.is_recoverable\(\)", 1, """
                 proof {
                     assert(json_spec::<HttpApiError>(w.net.last_body) == Some(api_err));
                 }"""),
